@@ -1,8 +1,10 @@
 #!/usr/bin/env python3
 """import_seeded.py <Cxx> — copy confirmed candidates /tmp/mut/<Cxx>/out/<n> to /verif/seeded/<Cxx>-<n>/"""
 import sys, os, json, shutil
+OUT = os.environ.get("OUTDIR", "out")
+SUF = os.environ.get("IDSUFFIX", "")
 for pid in sys.argv[1:]:
-    base = '/tmp/mut/%s/out' % pid
+    base = '/tmp/mut/%s/%s' % (pid, OUT)
     for n in sorted(os.listdir(base)):
         d = os.path.join(base, n)
         if not os.path.isfile(os.path.join(d, 'confirm.json')):
@@ -12,7 +14,7 @@ for pid in sys.argv[1:]:
         if not ok:
             print('NOT CONFIRMED', pid, n, c)
             continue
-        dst = '/verif/seeded/%s-%s' % (pid, n.replace('extra_', 'x'))
+        dst = '/verif/seeded/%s-%s%s' % (pid, SUF, n.replace('extra_', 'x'))
         os.makedirs(dst, exist_ok=True)
         shutil.copy(os.path.join(d, 'patch.diff'), dst)
         shutil.copy(os.path.join(d, 'demo.py'), os.path.join(dst, 'demonstration.py'))
